@@ -415,6 +415,35 @@ pub fn dispatch(f: &[&str]) -> String {
             }
             hex(h.to_string().as_bytes())
         }
+        "hdr.mailboxes_seq" => {
+            // the same mailbox header set several times on ONE header map (lists separated by '/'): what is written is the last one
+            use lettre::message::header::{self, Headers};
+            use lettre::message::{Mailbox, Mailboxes};
+            let Some(hname) = utf8(unhex(f[1])) else { return "invalid-utf8".into() };
+            let mut h = Headers::new();
+            for list in f[2].split('/') {
+                let mut mbs = Mailboxes::new();
+                if !list.is_empty() {
+                    for m in list.split(';') {
+                        let p: Vec<&str> = m.split(',').collect();
+                        let name = if p[0] == "!" { None } else { match utf8(unhex(p[0])) { Some(x) => Some(x), None => return "invalid-utf8".into() } };
+                        let Some(e) = utf8(unhex(p[1])) else { return "invalid-utf8".into() };
+                        let Ok(addr) = e.parse::<lettre::Address>() else { return "bad-address".into() };
+                        mbs.push(Mailbox::new(name, addr));
+                    }
+                }
+                match hname.as_str() {
+                    "To" => h.set(header::To::from(mbs)),
+                    "From" => h.set(header::From::from(mbs)),
+                    "Cc" => h.set(header::Cc::from(mbs)),
+                    "Bcc" => h.set(header::Bcc::from(mbs)),
+                    "Reply-To" => h.set(header::ReplyTo::from(mbs)),
+                    "Sender" => match mbs.into_single() { Some(m) => h.set(header::Sender::from(m)), None => return "empty".into() },
+                    _ => return "bad-header".into(),
+                }
+            }
+            hex(h.to_string().as_bytes())
+        }
         "hdr.cdisp" => {
             use lettre::message::header::{ContentDisposition, Headers};
             let (Some(kind), Some(fname)) = (utf8(unhex(f[1])), utf8(unhex(f[2]))) else { return "invalid-utf8".into() };
